@@ -50,7 +50,7 @@ func kindOf(n ast.Node) string {
 		case *ast.CallExpr:
 			if se, ok := v.Fun.(*ast.SelectorExpr); ok {
 				switch se.Sel.Name {
-				case "Lock", "Unlock", "Load", "Store", "CompareAndSwap", "addBuffer", "popBuffer", "readLine", "readLineOnWindows":
+				case "Lock", "Unlock", "Load", "Store", "CompareAndSwap", "Swap", "addBuffer", "popBuffer", "readLine", "readLineOnWindows":
 					kind = se.Sel.Name
 				}
 			}
